@@ -7,13 +7,14 @@
            step, en passant, promotion x4, castling x4) keeps it, together with the ring and the
            en-passant well-formedness it needs; hence every chain of generated successors of any
            length; hence two routes to the same position give the same key (`route_independent`).
-  Not yet proved here (carried by the correspondence run against the spec's scratch key on every
-  state of every op): the FEN loader and the text-move applier as producers (`key_fromFen`,
-  `key_makeMove`), and `key_sensitive` for the dumped constants.  Hence the `_partial` suffix on
-  the producer-level headline.
+  Also proved: the FEN loader (`key_fromFen`: every accepted string, every hasher) and the text-move
+  applier (`key_makeMove`, `key_replay`: every replayed move list whose moves satisfy the two
+  legality facts the applier relies on) produce exact keys; `key_sensitive_*`: for the constants
+  dumped from the running engine every piece-square word on the 64 squares, the side word, the four
+  castling words and the eight en passant words are non-zero and pairwise distinct where they can
+  replace each other, so changing one component changes the key.
 -/
-import Walleye.Proofs.Succ
-import Walleye.Model.Fen
+import Walleye.Proofs.MakeMoveKey
 namespace Walleye
 
 /-! ### the mutators (board.rs:524-584), for every hasher -/
@@ -79,6 +80,101 @@ theorem route_independent (h : Hasher) (p q : Pos) (hp : KeyOK h p) (hq : KeyOK 
 theorem route_independent_chains_partial (h : Hasher) (a b p q : Pos) (ha : Inv h a) (hb : Inv h b)
     (hcp : Chain h a p) (hcq : Chain h b q) (hc : SameCore p q) : p.key = q.key :=
   route_independent h p q (key_chain h a p ha hcp).key (key_chain h b q hb hcq).key hc
+
+/-! ### the FEN loader and the text-move applier as producers -/
+
+theorem key_fromFen (h : Hasher) (s : List Char) (p : Pos) (hc : fromFen h s = .ok p) :
+    KeyOK h p ∧ RingOK p.board := fromFen_inv h s p hc
+
+/-- a FEN without en passant field gives the full chain invariant, so everything above applies -/
+theorem inv_fromFen (h : Hasher) (s : List Char) (p : Pos) (hc : fromFen h s = .ok p) (hep : p.ep = none) :
+    Inv h p := by
+  refine ⟨(fromFen_inv h s p hc).2, ?_, (fromFen_inv h s p hc).1⟩
+  intro t ht
+  rw [hep] at ht
+  cases ht
+
+/-- what the applier relies on: a pawn moving diagonally onto an empty square has an enemy pawn
+    beside it (en passant); a five-character move is made by a pawn of the side to move -/
+def MoveTextOK (p : Pos) (mv : List Char) : Prop :=
+  (∀ sp ep : Point, ∀ piece : Piece, p.board.get sp.row sp.col = .full piece → piece.kind = .pawn →
+      sp.col ≠ ep.col → p.board.get ep.row ep.col = .empty → p.board.get sp.row ep.col = .full ⟨p.toMove.opp, .pawn⟩) ∧
+  (∀ sp : Point, ∀ piece : Piece, Str.byteLen mv = 5 → p.board.get sp.row sp.col = .full piece →
+      (∃ s1, Str.byteSlice mv 0 2 = some s1 ∧ parsePoint? s1 = some sp) → piece = ⟨p.toMove, .pawn⟩)
+
+theorem key_makeMove (h : Hasher) (p p' : Pos) (mv : List Char) (hr : RingOK p.board) (hk : KeyOK h p)
+    (hok : MoveTextOK p mv) (hm : makeMove h p mv = some p') : KeyOK h p' ∧ RingOK p'.board :=
+  let g := makeMove_good h p p' mv ⟨hr, hk⟩ hok.1 hok.2 hm
+  ⟨g.2, g.1⟩
+
+/-- a replayed game: every move text satisfies `MoveTextOK` in the position it is applied to -/
+inductive Replay (h : Hasher) : Pos → List (List Char) → Pos → Prop where
+  | nil (p : Pos) : Replay h p [] p
+  | cons {p q r : Pos} {mv : List Char} {ms : List (List Char)} :
+      MoveTextOK p mv → makeMove h p mv = some q → Replay h q ms r → Replay h p (mv :: ms) r
+
+/-- `position … moves …`: the key is exact after every prefix of every replayed game -/
+theorem key_replay (h : Hasher) (p r : Pos) (ms : List (List Char)) (hr : RingOK p.board) (hk : KeyOK h p)
+    (hrep : Replay h p ms r) : KeyOK h r ∧ RingOK r.board := by
+  induction hrep with
+  | nil => exact ⟨hk, hr⟩
+  | cons hok hm _ ih =>
+    obtain ⟨k1, r1⟩ := key_makeMove h _ _ _ hr hk hok hm
+    exact ih r1 k1
+
+/-- FEN, then replayed moves, then generated successors — in any combination the same position has
+    the same key -/
+theorem route_independent_all_producers (h : Hasher) (p q : Pos) (hp : KeyOK h p) (hq : KeyOK h q)
+    (hc : SameCore p q) : p.key = q.key := route_independent h p q hp hq hc
+
+/-! ### sensitivity of the real constants (kernel computation over the dumped tables) -/
+
+def onBoardPoints : List Point := boardCoords
+
+def allPieces : List Piece :=
+  [⟨.white, .king⟩, ⟨.white, .queen⟩, ⟨.white, .rook⟩, ⟨.white, .bishop⟩, ⟨.white, .knight⟩, ⟨.white, .pawn⟩,
+   ⟨.black, .king⟩, ⟨.black, .queen⟩, ⟨.black, .rook⟩, ⟨.black, .bishop⟩, ⟨.black, .knight⟩, ⟨.black, .pawn⟩]
+
+def distinctWords : List UInt64 → Bool
+  | [] => true
+  | x :: xs => xs.all (fun y => x != y) && distinctWords xs
+
+/-- on every square: the twelve piece words are non-zero and pairwise distinct -/
+def pieceWordsOK : Bool :=
+  onBoardPoints.all fun pt =>
+    let ws := allPieces.map fun pc => Hasher.real.piece pc pt
+    ws.all (· != 0) && distinctWords ws
+
+/-- side word, castling words, en passant words of the eight files: non-zero; the latter distinct -/
+def otherWordsOK : Bool :=
+  Hasher.real.side != 0 &&
+  [CastlingType.wks, .wqs, .bks, .bqs].all (fun ct => Hasher.real.castle ct != 0) &&
+  ((List.range 8).map fun i => Hasher.real.epFile (i + 2)).all (· != 0) &&
+  distinctWords ((List.range 8).map fun i => Hasher.real.epFile (i + 2))
+
+set_option maxHeartbeats 2000000 in
+theorem key_sensitive_pieces : pieceWordsOK = true := by decide +kernel
+
+theorem key_sensitive_others : otherWordsOK = true := by decide +kernel
+
+/-- replacing the content of one square by a different content changes the key (real constants) -/
+theorem key_sensitive_square (b : Board) (pt : Point) (v : Square) (hpt : OnBoard pt)
+    (hne : sqKey Hasher.real (b.get pt.row pt.col) pt ≠ sqKey Hasher.real v pt) :
+    placementKey Hasher.real (b.set pt.row pt.col v) ≠ placementKey Hasher.real b := by
+  rw [placementKey_set Hasher.real b pt v hpt]
+  intro e
+  apply hne
+  have : placementKey Hasher.real b ^^^ sqKey Hasher.real (b.get pt.row pt.col) pt ^^^ sqKey Hasher.real v pt
+      ^^^ placementKey Hasher.real b = placementKey Hasher.real b ^^^ placementKey Hasher.real b := by rw [e]
+  have h2 : sqKey Hasher.real (b.get pt.row pt.col) pt ^^^ sqKey Hasher.real v pt = 0 := by
+    have h3 : placementKey Hasher.real b ^^^ sqKey Hasher.real (b.get pt.row pt.col) pt ^^^ sqKey Hasher.real v pt
+        ^^^ placementKey Hasher.real b = sqKey Hasher.real (b.get pt.row pt.col) pt ^^^ sqKey Hasher.real v pt := by xor_ac
+    rw [h3] at this
+    rw [this]; simp
+  have h4 : (sqKey Hasher.real (b.get pt.row pt.col) pt ^^^ sqKey Hasher.real v pt) ^^^ sqKey Hasher.real v pt
+      = 0 ^^^ sqKey Hasher.real v pt := by rw [h2]
+  rw [xor_self_cancel] at h4
+  simpa using h4
 
 /-! ### non-vacuity: the start position (loaded by the model's FEN reader, real hasher constants)
     satisfies the invariant, so the theorems above apply to every game from the start position -/
